@@ -176,6 +176,10 @@ pub struct Wire {
     pub wb_inside_seen: u64,
     /// sweep: a would-block burst of the given length at exactly this unit position
     pub forced_wb: Option<(usize, u32)>,
+    /// a receiver poll is in progress (set by the harness around the call)
+    pub in_poll: bool,
+    /// bytes discarded by `clear(Input)` calls made during polls
+    pub cleared_units: u64,
     // --- transmit side ---
     pub tx: TxPolicy,
     pub tx_calls: u32,
@@ -213,6 +217,8 @@ impl Wire {
             frames_this_poll: 0,
             wb_inside_seen: 0,
             forced_wb: None,
+            in_poll: false,
+            cleared_units: 0,
             tx: TxPolicy::benign(),
             tx_calls: 0,
             flush_calls: 0,
@@ -249,6 +255,12 @@ impl Wire {
     pub fn begin_poll(&mut self) {
         self.starve = 0;
         self.frames_this_poll = 0;
+        self.in_poll = true;
+    }
+
+    /// Called by the harness after each receiver poll.
+    pub fn end_poll(&mut self) {
+        self.in_poll = false;
     }
 
     /// true if a hard read error may be injected at the current position (see RxPolicy)
@@ -999,7 +1011,34 @@ impl serialport::SerialPort for Dev {
     fn bytes_to_write(&self) -> serialport::Result<u32> {
         Ok(0)
     }
-    fn clear(&self, _: serialport::ClearBuffer) -> serialport::Result<()> {
+    /// `clear(Input)` discards what sits unread in the driver's receive buffer. Called while
+    /// the receiver object is being constructed it discards nothing that matters (nothing has
+    /// arrived for a receiver that does not exist yet). Called during a poll it is a schedule
+    /// question how much of the traffic in flight had already reached the driver buffer: the
+    /// tape decides between "nothing yet" and "everything in flight" - the latter is the
+    /// adversarial but legal case in which the following packets were already buffered.
+    fn clear(&self, which: serialport::ClearBuffer) -> serialport::Result<()> {
+        let _g = SimDomain::enter();
+        if matches!(which, serialport::ClearBuffer::Output) {
+            return Ok(());
+        }
+        let (in_poll, avail) = {
+            let w = self.rx.borrow();
+            (w.in_poll, w.in_flight())
+        };
+        if in_poll && avail > 0 && self.sim.draw(2) == 1 {
+            let mut w = self.rx.borrow_mut();
+            w.cursor = w.bytes.len();
+            w.parse = Parse::Idle;
+            w.cleared_units += avail as u64;
+            drop(w);
+            self.sim.event(EV_RX, 15, avail as u64, || {
+                format!("{}.serial.clear(Input) during a poll: {} unread bytes that had already arrived are discarded", self.name, avail)
+            });
+            self.sim.count("serial_input_cleared_during_poll");
+        } else {
+            self.sim.event(EV_RX, 16, 0, || format!("{}.serial.clear(Input): nothing had arrived yet", self.name));
+        }
         Ok(())
     }
     fn try_clone(&self) -> serialport::Result<Box<dyn serialport::SerialPort>> {
